@@ -234,6 +234,10 @@ fn matrix(w: &mut World, roles: &Roles, phase: &str, exes: &[String], rng: &mut 
         ("trader".into(), "alice".into()),
         ("liquidator".into(), "liquidator".into()),
         ("stranger".into(), "stranger".into()),
+        // addresses that only ever appeared as NON-role values (fee pool, whitelist entries)
+        ("non_role_value".into(), "feepool2".into()),
+        ("non_role_value".into(), "carol".into()),
+        ("non_role_value".into(), "dave".into()),
     ];
     for e in exes {
         senders.push(("ex_holder".into(), e.clone()));
@@ -363,6 +367,26 @@ pub fn run_acl(seed: u64, r: &mut Report, stats: &mut crate::RunStats) {
     let mut exes: Vec<String> = vec![];
     let base = json!({"acl_seed": seed.to_string()});
     matrix(&mut h.w, &roles, "before", &exes, &mut rng, r, &base);
+
+    // accepted updates of NON-role fields (fee pool, price feed, caps, ratios) must not move any role
+    let non_role: Vec<Op> = vec![
+        Op::Engine {
+            sender: roles.eng_owner.clone(),
+            msg: eng::ExecuteMsg::UpdateConfig { owner: None, insurance_fund: None, fee_pool: Some("feepool2".into()), initial_margin_ratio: None, maintenance_margin_ratio: None, partial_liquidation_ratio: None, liquidation_fee: None },
+            funds: 0,
+        },
+        Op::Vamm {
+            sender: roles.vamm_owner.clone(),
+            vamm: 0,
+            msg: vm::ExecuteMsg::UpdateConfig { base_asset_holding_cap: Some(u(0)), open_interest_notional_cap: Some(u(0)), toll_ratio: None, spread_ratio: None, fluctuation_limit_ratio: None, margin_engine: None, insurance_fund: None, pricefeed: Some(h.w.feed.to_string()), spot_price_twap_interval: Some(3600) },
+        },
+        Op::Engine { sender: roles.pauser.clone(), msg: eng::ExecuteMsg::AddWhitelist { address: "carol".into() }, funds: 0 },
+    ];
+    for op in non_role {
+        h.step(op, r);
+    }
+    r.count("non-role-updates-before-matrix");
+    matrix(&mut h.w, &roles, "after-non-role-updates", &exes, &mut rng, r, &base);
 
     // role transfers, chained twice; each transfer is a real transaction by the current holder
     let rounds = [("newowner", "newpauser", "after1"), ("owner3", "pauser3", "after2")];
